@@ -99,7 +99,7 @@ func obligationQuery(o *Obligation) (string, string) {
 		terms = append(terms, o.Gen.S.instTerms...)
 		for _, t := range append([]string{}, terms...) {
 			if strings.HasPrefix(t, "|sk!") && strings.Contains(t, "!Int!") {
-				terms = append(terms, "(+ "+t+" 1)") // the neighbouring position (element removal / insertion)
+				terms = append(terms, "(+ "+t+" 1)", "(- "+t+" 1)") // the neighbouring positions (element removal / insertion)
 			}
 		}
 		var ctxTerms []string
@@ -127,7 +127,7 @@ func obligationQuery(o *Obligation) (string, string) {
 			})
 		}
 		if len(terms) > 0 {
-			budget := 400 + 40*len(o.Gen.S.instTerms)
+			budget := 1500 + 40*len(o.Gen.S.instTerms)
 			for _, a := range o.Gen.S.asserts {
 				if !strings.Contains(a, "(forall ((|q!") && !strings.Contains(a, "(forall ((j Int))") {
 					continue
